@@ -37,7 +37,11 @@ FIXED = [rc.BOOLEAN] + sorted(rc.NUMERIC)
 
 
 def _payload(n, salt=0):
-    # deterministic, non-zero bytes so that 'padding is zero' is a real check
+    # deterministic; mostly non-zero bytes so that 'padding is zero' is a real check, but for some
+    # salts the payload has zero runs and ends in zero bytes (a value is not a C string)
+    if salt % 5 == 2:
+        return bytes(0 if (i % 9 in (3, 4, 5) or i >= n - 2) else ((i * 37 + salt * 11 + 1) % 255) + 1
+                     for i in range(n))
     return bytes(((i * 37 + salt * 11 + 1) % 255) + 1 for i in range(n))
 
 
